@@ -162,6 +162,37 @@ def _fast_path_single_bundle(skip):
     return clause
 
 
+def _one_by_one(fn):
+    single = 'store_tile' if fn == 'store_tiles' else 'load_tile'
+    flag = 'failed' if fn == 'store_tiles' else 'missing'
+
+    def clause(ex, st, k):
+        import z3
+        evs_ = st.trace[getattr(st, 'iter_start_trace', 0):]
+        calls = [e for e in evs_ if e.name in (single, 'CompactCacheBase.' + single)]
+        tile = st.env['tile']
+        ok = len(calls) == 1 and any(a is tile for a in calls[0].args)
+        goal = z3.BoolVal(bool(ok))
+        if ok:
+            # an unsuccessful single operation always raises the flag (it is never lowered again by this iteration)
+            goal = z3.And(goal, z3.Implies(z3.Not(ex.truth(st, calls[0].result)), ex.truth(st, st.env[flag])))
+        yield ('fallback_handles_every_tile', goal,
+               'tiles spread over several bundles: each tile goes through %s once; a False answer sets `%s`' % (single, flag))
+    return clause
+
+
+def _bulk_answer(fn):
+    flag = 'failed' if fn == 'store_tiles' else 'missing'
+
+    def clause(ex, st, post, result):
+        import z3
+        if flag not in st.env:
+            return
+        yield ('bulk_answer_is_not_' + flag, ex.truth(st, result) == z3.Not(ex.truth(st, st.env[flag])),
+               'the fallback path answers True exactly when no single operation failed')
+    return clause
+
+
 for _fn, _skip, _inv_skip in (
         ('store_tiles', lambda ex, st, t: ex.truth(st, ex.opaque_field(st, t, 'stored')), 'tiles[j].stored'),
         ('load_tiles', lambda ex, st, t: __import__('z3').Or(ex.truth(st, ex.opaque_field(st, t, 'source')),
@@ -178,8 +209,10 @@ for _fn, _skip, _inv_skip in (
                        'forall(lambda j: implies(0 <= j < len(tiles) and not %s, tiles[j].coord is not None))' % _inv_skip],
              loops={0: dict(types={'bundle_files': 'dict[str,none]', 'tile_coord': 'opt[tuple[int,int,int]]'},
                             inv=SET_INV + ['forall(lambda j: implies(0 <= j < _k and not %s, bname(self, tiles[j].coord) in bundle_files))' % _inv_skip]),
-                    1: dict(types={'failed': 'bool', 'missing': 'bool'}, inv=[])},
-             trace=[_fast_path_single_bundle(_skip)])
+                    1: dict(types={'failed': 'bool', 'missing': 'bool'},
+                            inv=['implies(_k == 0, not %s)' % ('failed' if _fn == 'store_tiles' else 'missing')],
+                            body_trace=[_one_by_one(_fn)])},
+             trace=[_fast_path_single_bundle(_skip), _bulk_answer(_fn)])
 
 
 # ---- v2 load / remove -------------------------------------------------------------------------------------------------------
@@ -285,6 +318,30 @@ def _v1_store_iteration(ex, st, k):
            'published only after append_tile returned (its contract: record complete and flushed)')
 
 
+def _v1_collect(ex, st, k):
+    """first pass of the bulk store: every tile that is not yet stored contributes (its address, its bytes)"""
+    import z3
+    from pyvc.values import VSeq, eq
+    evs_ = _iter_events(st)
+    t = st.env['t']
+    app = [e for e in evs_ if e.name == 'append']
+    rd = [e for e in evs_ if e.name == 'read']
+    stored = ex.truth(st, ex.opaque_field(st, t, 'stored'))
+    goal = z3.And(stored == z3.BoolVal(len(app) == 0), z3.BoolVal(len(app) <= 1))
+    if app:
+        item = app[0].args[-1]
+        ok = isinstance(item, VSeq) and item.concrete and len(item.items) == 2 and len(rd) == 1 and item.items[1] is rd[0].result
+        goal = z3.And(goal, z3.BoolVal(bool(ok)))
+        if ok:
+            goal = z3.And(goal, eq(item.items[0], ex.opaque_field(st, t, 'coord')))
+    yield ('v1_store_collects_unstored_tiles', goal,
+           'a tile is written iff it is not marked stored; what is queued is (its own coord, the bytes read from its own buffer)')
+
+
+def _v1_store_answer(ex, st, post, result):
+    yield ('v1_store_reports_success', ex.truth(st, result), 'the bulk store reports success after writing every queued tile')
+
+
 contract(K + 'BundleV1.store_tiles', props=['C05', 'C06', 'C19'],
          types=dict(tiles='list[opaque]', dimensions='opaque'), returns='bool', default_callee='opaque',
          inline=['_rel_tile_coord'],
@@ -292,8 +349,9 @@ contract(K + 'BundleV1.store_tiles', props=['C05', 'C06', 'C19'],
          opaque_spec={'tile_offset': {'returns': 'int', 'pure': True}, 'append_tile': {'returns': 'tuple[int,int]'},
                       'update_tile_offset': {}, 'readwrite': {'pure': True}, 'index': {'pure': True}, 'data': {'pure': True},
                       'tile_buffer': {'pure': True}, 'read': {'returns': 'blob', 'pure': True}, 'FileLock': {'pure': True}},
-         loops={0: dict(inv=[], types={'tiles_data': 'list[tuple[tuple[int,int,int],blob]]'}),
-                1: dict(inv=[], types={}, body_trace=[_v1_store_iteration])})
+         loops={0: dict(inv=[], types={'tiles_data': 'list[tuple[tuple[int,int,int],blob]]'}, body_trace=[_v1_collect]),
+                1: dict(inv=[], types={}, body_trace=[_v1_store_iteration])},
+         trace=[_v1_store_answer])
 
 
 def _v1_load_iteration(ex, st, k):
@@ -302,6 +360,7 @@ def _v1_load_iteration(ex, st, k):
     evs_ = _iter_events(st)
     offs = [e for e in evs_ if e.name == 'tile_offset']
     reads = [e for e in evs_ if e.name == 'read_tile']
+    srcs = [e for e in evs_ if e.name == 'setattr:source']
     t = st.env['t']
     goal = z3.BoolVal(len(offs) <= 1 and len(reads) <= len(offs))
     if offs:
@@ -311,6 +370,34 @@ def _v1_load_iteration(ex, st, k):
         goal = z3.And(goal, to_int(r.args[0]) == to_int(offs[0].result))
     yield ('v1_load_reads_own_slot', goal,
            'each tile is read at the offset stored in ITS slot (x % 128, y % 128) of the index, nowhere else')
+    # outcome of the iteration: bytes attached iff the slot is occupied and the record is non-empty, else "missing" is set
+    missing_after = ex.truth(st, st.env['missing'])
+    coord0 = ex.opaque_field_at(st, offs[0], t, 'coord') if offs else None
+    if not offs:
+        g2 = z3.BoolVal(not srcs)          # skipped: the tile already has its data or no address
+    elif not reads:
+        g2 = z3.And(to_int(offs[0].result) == 0, missing_after, z3.BoolVal(not srcs))
+    elif not srcs:
+        g2 = z3.And(to_int(offs[0].result) != 0, z3.Not(ex.truth(st, reads[0].result)), missing_after)
+    else:
+        g2 = z3.And(to_int(offs[0].result) != 0, ex.truth(st, reads[0].result), z3.BoolVal(len(srcs) == 1 and srcs[0].args[0] is t))
+    yield ('v1_load_outcome_per_tile', g2,
+           'empty slot or empty record => the tile stays without data and the result becomes "missing"; otherwise the record '
+           'bytes are attached to THIS tile')
+
+
+def _v1_load_answer(ex, st, post, result):
+    import z3
+    ro = [e for e in st.trace if e.name == 'readonly']
+    if 'missing' not in st.env:
+        return
+    res = ex.truth(st, result)
+    if 'idx' in st.env and len(ro) <= 1:
+        yield ('v1_load_no_index_is_missing', z3.And(z3.Not(res), z3.Not(ex.truth(st, st.env['idx']))),
+               'without an index file nothing is loaded and the answer is False')
+        return
+    yield ('v1_load_answer_is_not_missing', res == z3.Not(ex.truth(st, st.env['missing'])),
+           'the bulk answer is True exactly when no tile was found missing')
 
 
 contract(K + 'BundleV1.load_tiles', props=['C19', 'C05'],
@@ -319,8 +406,10 @@ contract(K + 'BundleV1.load_tiles', props=['C19', 'C05'],
          opaque_fields={'coord': 'opt[tuple[int,int,int]]', 'source': 'opt[opaque]'}, stable_fields=['coord'],
          opaque_spec={'tile_offset': {'returns': 'int', 'pure': True}, 'read_tile': {'returns': 'opt[opaque]', 'pure': True},
                       'readonly': {'pure': True}, 'index': {'pure': True}, 'data': {'pure': True}},
-         loops={0: dict(inv=[], types={'missing': 'bool'}, body_trace=[_v1_load_iteration],
-                        no_early_exit='a removed or never stored slot marks the result "missing" but the remaining tiles are still loaded')})
+         loops={0: dict(inv=['implies(_k == 0, not missing)', 'implies(old_missing(missing), missing)'] if False else
+                        ['implies(_k == 0, not missing)'], types={'missing': 'bool'}, body_trace=[_v1_load_iteration],
+                        no_early_exit='a removed or never stored slot marks the result "missing" but the remaining tiles are still loaded')},
+         trace=[_v1_load_answer])
 
 
 def _v1_remove(ex, st, post, result):
@@ -339,6 +428,7 @@ def _v1_remove(ex, st, post, result):
         goal = z3.And(goal, isnone)
     yield ('v1_remove_clears_own_slot', goal,
            'remove clears exactly the slot (x % 128, y % 128) of the address, under the bundle lock, and writes nothing else')
+    yield ('v1_remove_reports_success', ex.truth(st, result), 'remove always reports success (a missing tile is "removed")')
 
 
 contract(K + 'BundleV1.remove_tile', props=['C05', 'C19'],
@@ -354,15 +444,30 @@ def _v1_is_cached(ex, st, post, result):
     from pyvc import tracelib as T
     offs = T.evs(st, 'tile_offset')
     sizes = T.evs(st, 'read_size')
+    ro = T.evs(st, 'readonly')
     tile = post.env['tile']
+    coord = ex.opaque_field(st, tile, 'coord')
+    has = z3.Or(ex.truth(st, ex.opaque_field(st, tile, 'source')), coord.isnone)
+    res = ex.truth(st, result)
     goal = z3.BoolVal(len(offs) <= 1 and len(sizes) <= len(offs))
     if offs:
-        coord = ex.opaque_field(st, tile, 'coord')
         goal = z3.And(goal, _slot_is(ex, st, offs[0][1], coord.val if hasattr(coord, 'val') else coord))
     for i, r in sizes:
-        goal = z3.And(goal, to_int(r.args[0]) == to_int(offs[0][1].result), ex.truth(st, result) == (to_int(r.result) != 0))
+        goal = z3.And(goal, to_int(r.args[0]) == to_int(offs[0][1].result), res == (to_int(r.result) != 0))
     yield ('v1_is_cached_reads_own_slot', goal,
            'existence is decided from the slot of this address: offset from its index entry, size from the record at that offset')
+    # the answer in every case
+    if not ro:
+        g2 = z3.And(has, res)                         # nothing looked up: only for a tile that carries its data / has no address
+    elif not offs:
+        g2 = z3.And(z3.Not(has), z3.Not(res), z3.Not(ex.truth(st, st.env['idx'])) if 'idx' in st.env else z3.BoolVal(False))   # no index file: missing
+    elif not sizes:
+        g2 = z3.And(z3.Not(has), z3.Not(res), to_int(offs[0][1].result) == 0)              # empty slot: missing
+    else:
+        g2 = z3.And(z3.Not(has), to_int(offs[0][1].result) != 0)
+    yield ('v1_is_cached_answer', g2,
+           'True without lookup only for a tile with data / without address; no index file or an empty slot (offset 0) => False; '
+           'otherwise True iff the record size at that offset is non-zero')
 
 
 contract(K + 'BundleV1.is_cached', props=['C05'],
